@@ -450,12 +450,33 @@ func (c *TermCtx) Eq(a, b *Term) *Term {
 	if a.IsConst() {
 		a, b = b, a
 	}
+	if a.Sort.K == KBV && a.Sort.W > 8 && !b.IsConst() {
+		ea, eb := effWidth(a), effWidth(b)
+		n := ea
+		if eb > n {
+			n = eb
+		}
+		if n < 1 {
+			n = 1
+		}
+		if n < a.Sort.W {
+			return c.Eq(c.narrow(a, n), c.narrow(b, n))
+		}
+	}
 	// eq(ite(g, x, y), K) with constant leaves
 	if b.IsConst() && a.Op == OpIte {
 		x, y := a.Args[1], a.Args[2]
 		if x.IsConst() || y.IsConst() {
 			return c.Ite(a.Args[0], c.Eq(x, b), c.Eq(y, b))
 		}
+	}
+	// eq(concat(Khi, x), K)
+	if b.IsConst() && a.Op == OpConcat && a.Args[0].IsConst() {
+		lw := a.Args[1].Sort.W
+		if b.C>>uint(lw) != a.Args[0].C {
+			return c.False
+		}
+		return c.Eq(a.Args[1], c.BV(b.C, lw))
 	}
 	// eq(zero_extend(x), K)
 	if b.IsConst() && a.Op == OpZeroExt {
@@ -563,6 +584,23 @@ func (c *TermCtx) bvbin(op Op, a, b *Term) *Term {
 			return c.BV(r, w)
 		}
 	}
+	// width reduction: sums and products of zero-extended operands are computed at the width they need
+	if (op == OpBVAdd || op == OpBVMul) && w > 8 {
+		ea, eb := effWidth(a), effWidth(b)
+		n := ea + eb
+		if op == OpBVAdd {
+			n = ea + 1
+			if eb > ea {
+				n = eb + 1
+			}
+		}
+		if n < 1 {
+			n = 1
+		}
+		if n < w && !(a.IsConst() && b.IsConst()) {
+			return c.ZeroExt(c.bvbin(op, c.narrow(a, n), c.narrow(b, n)), w-n)
+		}
+	}
 	switch op {
 	case OpBVAdd:
 		if a.IsConst() && a.C == 0 {
@@ -581,6 +619,13 @@ func (c *TermCtx) bvbin(op Op, a, b *Term) *Term {
 	case OpBVSub:
 		if b.IsConst() && b.C == 0 {
 			return a
+		}
+		// concat(Khi, x) - (Khi << lw) = zero_extend(x)
+		if b.IsConst() && a.Op == OpConcat && a.Args[0].IsConst() {
+			lw := a.Args[1].Sort.W
+			if b.C == a.Args[0].C<<uint(lw) {
+				return c.ZeroExt(a.Args[1], a.Args[0].Sort.W)
+			}
 		}
 		if a == b {
 			return c.BV(0, w)
@@ -660,6 +705,40 @@ func (c *TermCtx) bvbin(op Op, a, b *Term) *Term {
 	return c.mk(&Term{Op: op, Sort: a.Sort, Args: []*Term{a, b}})
 }
 
+// effective width: number of low bits that can be non-zero (syntactic)
+func effWidth(t *Term) int {
+	switch t.Op {
+	case OpConst:
+		return bits.Len64(t.C)
+	case OpZeroExt:
+		return effWidth(t.Args[0])
+	case OpIte:
+		a, b := effWidth(t.Args[1]), effWidth(t.Args[2])
+		if a > b {
+			return a
+		}
+		return b
+	case OpBVAnd:
+		a, b := effWidth(t.Args[0]), effWidth(t.Args[1])
+		if a < b {
+			return a
+		}
+		return b
+	}
+	return t.Sort.W
+}
+
+// narrow returns t (whose effective width is <= n) as a term of width n.
+func (c *TermCtx) narrow(t *Term, n int) *Term {
+	if t.Sort.W == n {
+		return t
+	}
+	if t.Sort.W < n {
+		return c.ZeroExt(t, n-t.Sort.W)
+	}
+	return c.Extract(t, n-1, 0)
+}
+
 func iteDepth(t *Term) int {
 	d := 0
 	for t.Op == OpIte {
@@ -726,6 +805,26 @@ func (c *TermCtx) bvcmp(op Op, a, b *Term) *Term {
 	if a == b {
 		return c.Bool(op == OpBVUle || op == OpBVSle)
 	}
+	if w := a.Sort.W; w > 8 {
+		ea, eb := effWidth(a), effWidth(b)
+		n := ea
+		if eb > n {
+			n = eb
+		}
+		if n < 1 {
+			n = 1
+		}
+		if n < w {
+			// both operands are non-negative and fit in n bits: signed and unsigned orders coincide
+			uop := op
+			if op == OpBVSlt {
+				uop = OpBVUlt
+			} else if op == OpBVSle {
+				uop = OpBVUle
+			}
+			return c.bvcmp(uop, c.narrow(a, n), c.narrow(b, n))
+		}
+	}
 	m := mask(a.Sort.W)
 	switch op {
 	case OpBVUlt:
@@ -749,6 +848,23 @@ func (c *TermCtx) bvcmp(op Op, a, b *Term) *Term {
 	}
 	if a.IsConst() && b.Op == OpIte && (b.Args[1].IsConst() || b.Args[2].IsConst()) && iteDepth(b) <= 12 {
 		return c.Ite(b.Args[0], c.bvcmp(op, a, b.Args[1]), c.bvcmp(op, a, b.Args[2]))
+	}
+	// concat(Khi, x) compared unsigned with a constant: decided by the high part when it differs
+	if (op == OpBVUlt || op == OpBVUle) && a.Op == OpConcat && a.Args[0].IsConst() && b.IsConst() {
+		lw := a.Args[1].Sort.W
+		bh := b.C >> uint(lw)
+		if a.Args[0].C != bh {
+			return c.Bool(a.Args[0].C < bh)
+		}
+		return c.bvcmp(op, a.Args[1], c.BV(b.C, lw))
+	}
+	if (op == OpBVUlt || op == OpBVUle) && b.Op == OpConcat && b.Args[0].IsConst() && a.IsConst() {
+		lw := b.Args[1].Sort.W
+		ah := a.C >> uint(lw)
+		if b.Args[0].C != ah {
+			return c.Bool(ah < b.Args[0].C)
+		}
+		return c.bvcmp(op, c.BV(a.C, lw), b.Args[1])
 	}
 	// zero-extended operands compared unsigned with small constants
 	if (op == OpBVUlt || op == OpBVUle) && a.Op == OpZeroExt && b.IsConst() {
